@@ -1863,15 +1863,13 @@ class RedunBackendDb(RedunBackend):
 
         with self.with_session() as session:
             if not session.query(CallNode).filter_by(call_hash=call_hash).first():
-                session.add(
-                    CallNode(
-                        call_hash=call_hash,
-                        task_name=task_name,
-                        task_hash=task_hash,
-                        args_hash=args_hash,
-                        value_hash=result_hash,
-                    )
-                )
+                # First record the argument Values, each in its own transaction. The CallNode
+                # and all rows belonging to it (edges, arguments, subtree tasks) are then written
+                # in a single transaction, so that an interruption or a retry can never leave
+                # a CallNode with only some of its rows.
+                eval_pos_args, eval_kwargs = eval_args
+                for eval_arg in chain(eval_pos_args, eval_kwargs.values()):
+                    self.record_value(eval_arg)
 
                 # Record CallEdges only if child was recorded (might not be if prov=False).
                 recorded_child_hashes = {
@@ -1882,6 +1880,21 @@ class RedunBackendDb(RedunBackend):
                         child_call_hashes,
                     )
                 }
+
+                # If child nodes were not recorded, then their tasks might not be recorded either.
+                if recorded_child_hashes < set(child_call_hashes):
+                    for task in subtree_tasks:
+                        self.record_value(task)
+
+                session.add(
+                    CallNode(
+                        call_hash=call_hash,
+                        task_name=task_name,
+                        task_hash=task_hash,
+                        args_hash=args_hash,
+                        value_hash=result_hash,
+                    )
+                )
                 for i, child_call_hash in enumerate(child_call_hashes):
                     if child_call_hash in recorded_child_hashes:
                         session.add(
@@ -1889,11 +1902,6 @@ class RedunBackendDb(RedunBackend):
                         )
 
                 self._record_args(call_hash, expr_args, eval_args)
-
-                # If child nodes were not recorded, then their tasks might not be recorded either.
-                if recorded_child_hashes < set(child_call_hashes):
-                    for task in subtree_tasks:
-                        self.record_value(task)
 
                 # Record call subtree tasks.
                 for task in subtree_tasks:
@@ -2000,8 +2008,6 @@ class RedunBackendDb(RedunBackend):
                             result_call_hash=result_call_hash,
                         )
                     )
-
-            session.commit()
 
     @db_retry
     def record_call_node_context(
